@@ -447,6 +447,16 @@ class WorkflowRecovery:
         from stabilize.models.stage import JoinType
         from stabilize.models.status import CONTINUABLE_STATUSES
 
+        # A synthetic (before/after/on-failure) stage only ever runs inside a
+        # RUNNING parent. After a jump re-armed the parent, its synthetic
+        # children are NOT_STARTED again too; starting them here would run
+        # them - and then the parent's tasks - before the parent itself has
+        # been started again.
+        if stage.parent_stage_id:
+            parent = next((s for s in workflow.stages if s.id == stage.parent_stage_id), None)
+            if parent is None or parent.status != WorkflowStatus.RUNNING:
+                return False
+
         # No dependencies - can always start
         if not stage.requisite_stage_ref_ids:
             return True
